@@ -964,4 +964,41 @@ theorem t0_vJ_lt_one : t0.vJ < 1 := by
   exact vJ_lt_one hsq hpos.le hlt (by rw [t0_alN]; norm_num)
 
 
+/-! ## A concrete shock front on `q0` (for non-vacuity examples): `ξ = 2/3`, `v = 1/4`, `u = 1/2`,
+`w(T)/w(Tn) = 9/5` -/
+
+/-- temperature behind the example front: `T⁴ = 9/5` -/
+noncomputable def T0x : ℝ := (9 / 5 : ℝ) ^ ((1 : ℝ) / 4)
+
+theorem T0x_pos : 0 < T0x := Real.rpow_pos_of_pos (by norm_num) _
+
+theorem T0x_pow : T0x ^ (4 : ℝ) = 9 / 5 := by
+  unfold T0x
+  rw [← Real.rpow_mul (by norm_num)]; norm_num
+
+theorem q0_wH_T0x : q0.hydro.wHighT T0x = 36 / 5 := by
+  simp only [TPar.hydro, q0, T0x_pow]; norm_num
+
+theorem q0_pH_T0x : q0.hydro.pHighT T0x = 17 / 10 := by
+  simp only [TPar.hydro, q0, T0x_pow]; norm_num
+
+theorem q0_pH_one : q0.hydro.pHighT 1 = 9 / 10 := by norm_num [TPar.hydro, q0]
+
+theorem boost_example : boostVelocity (2 / 3) (1 / 4) = 1 / 2 := by norm_num [boostVelocity]
+
+theorem front_example_event : shockEvent q0.hydro (1 / 4) (2 / 3, T0x) = 0 := by
+  simp only [shockEvent, boost_example]; norm_num [TPar.hydro, q0]
+
+theorem front_example_energy : TiiShock q0.hydro (2 / 3) (1 / 4) T0x q0.hydro.Tnucl = 0 := by
+  simp only [TiiShock, boost_example, q0_wH_T0x, hydro_Tnucl]
+  rw [show q0.Tn = 1 from rfl, q0_wH_one]; norm_num [gammaSq]
+
+theorem front_example_momentum :
+    q0.hydro.wHighT q0.Tn * gammaSq (2 / 3) * (2 / 3) ^ 2 + q0.hydro.pHighT q0.Tn
+      = q0.hydro.wHighT T0x * gammaSq (boostVelocity (2 / 3) (1 / 4)) * boostVelocity (2 / 3) (1 / 4) ^ 2
+        + q0.hydro.pHighT T0x := by
+  rw [boost_example, q0_wH_T0x, q0_pH_T0x, show q0.Tn = 1 from rfl, q0_wH_one, q0_pH_one]
+  norm_num [gammaSq]
+
+
 end Lemmas.Template
